@@ -302,7 +302,7 @@ func (g *gen) learn(s Step, o Obs) {
 
 // generate runs one random case on runner r, producing the script as it goes.
 func generate(rnd *lib.Rand, r *Runner) ([]Step, Result) {
-	g := &gen{rnd: rnd, r: r, allowF1: rnd.Chance(1, 8), allowF2: rnd.Chance(1, 14), engine: r.eng}
+	g := &gen{rnd: rnd, r: r, allowF1: rnd.Chance(1, 3), allowF2: rnd.Chance(1, 8), engine: r.eng}
 	t0 := time.Now()
 	res := Result{}
 	var script []Step
@@ -378,7 +378,7 @@ func generate(rnd *lib.Rand, r *Runner) ([]Step, Result) {
 	if g.parked && r.failure == "" {
 		do(Step{Kind: "rfinish", Envs: g.retryEnv(0)})
 	}
-	for round := 0; round < 8 && r.failure == ""; round++ {
+	for round := 0; round < 10 && r.failure == ""; round++ {
 		if g.queue == 0 {
 			break
 		}
